@@ -8,7 +8,8 @@ TEXT = ('Track reuses the sound state machine: the set of manager states reachab
         'calls (extracted from MIR) must be decodable by TrackShared::state() without reaching its panic arm; the decode '
         'table matches the enums; a non-advancing track returns through zero-fill before touching children, sounds, '
         'effects or sends; the removal predicate has the documented path conditions and both track storages use it; '
-        'handles mark removal on drop. Frozen positions and fade values are not decided.')
+        'handles mark removal on drop. Frozen positions and fade values are not decided.'
+        ' Every storage is swept on every path of every callback.')
 TECHNIQUE = 'MIR state-machine reachability + decode-table / must-pass / path-predicate rules'
 
 PSM = c03.PSM
@@ -239,6 +240,10 @@ def run(ctx, R, tier):
                 '%s removes sub-tracks with a predicate that does not call Track::should_be_removed' % owner,
                 detail='sub_tracks.remove_and_add(|t| t.should_be_removed())', where=b.where(ra[0][0]))
     R.floor('B.C12.pred', npred, 2)
+
+    # ---- "removes the track at the next callback": every storage is swept on every path of every callback (the C08 rule)
+    from . import c08
+    c08.sweep(F, R)
 
     # ---- handles mark removal on drop
     nd = 0
